@@ -144,7 +144,7 @@ def _run_name(d, ctx, core, ban):
     ctx.nontrivial(bool(extra) or (F >= 3 and '+' in name))
 
 
-@subcheck(SUBCHECKS, 'wrapper_names', quick=900, thorough=15000, fuzz=3000)
+@subcheck(SUBCHECKS, 'wrapper_names', quick=1800, thorough=15000, fuzz=3000)
 def wrapper_names(d, ctx):
     core = d.choice(CORES + ['ch'])
     _run_name(d, ctx, core, d.bool())
@@ -190,7 +190,7 @@ def wrapper_names_exhaustive(d, ctx):
     ctx.label(name)
 
 
-@subcheck(SUBCHECKS, 'invalid_names', quick=150, thorough=1500, fuzz=3000, min_nontrivial=0.0)
+@subcheck(SUBCHECKS, 'invalid_names', quick=300, thorough=1500, fuzz=3000, min_nontrivial=0.0)
 def invalid_names(d, ctx):
     bf, bw = _mods()
     pool = ['', 'mvdr', 'gev+ban+ban', 'ban', 'pca+gev', 'rank1+gev', 'souden',
@@ -210,7 +210,7 @@ def invalid_names(d, ctx):
     raise Violation('invalid-name-accepted', f'{name!r} returned shape {np.shape(out)}')
 
 
-@subcheck(SUBCHECKS, 'apply_and_stack', quick=700, thorough=12000)
+@subcheck(SUBCHECKS, 'apply_and_stack', quick=1400, thorough=12000)
 def apply_and_stack(d, ctx):
     """apply_beamforming_vector and every primitive: stack == slices"""
     bf, bw = _mods()
@@ -278,7 +278,7 @@ def apply_and_stack(d, ctx):
     ctx.nontrivial(True)
 
 
-@subcheck(SUBCHECKS, 'auxiliary_functions', quick=500, thorough=8000)
+@subcheck(SUBCHECKS, 'auxiliary_functions', quick=1000, thorough=8000)
 def auxiliary_functions(d, ctx):
     """the remaining public beamforming functions: loop-level formula and
     stack == individual problems (over the bin axis for the functions whose
@@ -388,7 +388,7 @@ def auxiliary_functions(d, ctx):
     ctx.nontrivial(F >= 2 or len(extra) > 0)
 
 
-@subcheck(SUBCHECKS, 'phase_correction', quick=600, thorough=10000)
+@subcheck(SUBCHECKS, 'phase_correction', quick=1200, thorough=10000)
 def phase_correction(d, ctx):
     bf, bw = _mods()
     lead = tuple(d.int(1, 4) for _ in range(d.int(0, 2)))
@@ -432,7 +432,7 @@ def phase_correction(d, ctx):
     ctx.nontrivial(len(lead) >= 1 or special != 'none')
 
 
-@subcheck(SUBCHECKS, 'singular_bins', quick=700, thorough=12000)
+@subcheck(SUBCHECKS, 'singular_bins', quick=1400, thorough=12000)
 def singular_bins(d, ctx):
     bf, bw = _mods()
     F = d.int(1, 10)
